@@ -475,15 +475,15 @@ def check(report, tier, only=None):
     jobs = []
     FN = ['DialBackoffState::update', 'DialBackoffState::new']
     if tier == 'quick':
-        jobs.append(kani.KaniJob('cm', 'c13_backoff_update_quick', 'attempts+1; backoff = now + min(max, step*attempts); never before now', FN,
+        jobs.append(kani.KaniJob('backoff', 'c13_backoff_update_quick', 'attempts+1; backoff = now + min(max, step*attempts); never before now', FN,
                                  {'step,max': '<= 2^16 ms', 'attempts': '< 64', 'now': 'any Instant < 2^40 s'}, timeout_s=900))
     else:
-        jobs.append(kani.KaniJob('cm', 'c13_backoff_update_thorough', 'attempts+1; backoff = now + min(max, step*attempts); never before now', FN,
+        jobs.append(kani.KaniJob('backoff', 'c13_backoff_update_thorough', 'attempts+1; backoff = now + min(max, step*attempts); never before now', FN,
                                  {'step,max': '<= 10^8 ms', 'attempts': '< 1000', 'now': 'any Instant < 2^40 s'}, timeout_s=2400))
-    jobs.append(kani.KaniJob('cm', 'c13_backoff_new_is_first_update', 'new(now) = one update from zero attempts', FN, {'step,max': '<= 2^16 ms'}))
+    jobs.append(kani.KaniJob('backoff', 'c13_backoff_new_is_first_update', 'new(now) = one update from zero attempts', FN, {'step,max': '<= 2^16 ms'}))
     jobs = [j for j in jobs if not only or any(s in j.harness for s in only)]
     if jobs:
-        kani.build_and_run(PROP, ['cm'], jobs, report)
+        kani.build_and_run(PROP, ['backoff'], jobs, report)
     for f in (ob_eligibility, ob_dial_loop, ob_config_default, ob_retain):
         if only and not any(s in f.__name__ for s in only):
             continue
